@@ -580,7 +580,19 @@ func (ch c11) odd(c *core.Ctx, env, envNone *hs.Env, s c15session, rng *core.Rng
 		c.Violate("upgrade", "TLS upgrade failed", fmt.Sprintf("reply %q: %v", reply, err), cs)
 		return
 	}
-	switch rng.Intn(5) {
+	switch rng.Intn(6) {
+	case 5: // a CancelRequest as the first packet inside TLS: like its plaintext equivalent it is closed without any reply or callback
+		out, closed := t.step(pg.CancelRequest(uint32(1+rng.Intn(1<<20)), uint32(rng.U64())))
+		evs := 0
+		for _, e := range t.conn.Events() {
+			if e.Kind == "cb" {
+				evs++
+			}
+		}
+		if len(out) != 0 || !closed || evs != 0 {
+			c.Violate("tls-differs", "a CancelRequest inside the TLS session is not handled like its plaintext equivalent (closed, no reply, no callback)", fmt.Sprintf("decrypted reply %s, closed=%v, callbacks=%d", replyKinds(out), closed, evs), cs)
+		}
+		c.Count("cancel_inside_tls", 1)
 	case 0:
 		t.step(pg.SSLRequest()) // a second SSLRequest, now inside TLS
 		t.step(pg.Startup([][2]string{{"user", s.User}}))
